@@ -24,6 +24,7 @@
    target removal (tx.ruleRemoveTargetByID is empty), skip/skipAfter/allow/removals/interruptions
    (C02/C08/C17), multiphase evaluation and the case-sensitive-args build tag (both off by
    default).  Keys are ASCII: strings.ToLower is modelled by lower_ascii. *)
+From Coq Require Import String.
 From Coq Require Import Permutation.
 From Verif Require Import Base Utf8 Transform.
 Open Scope N_scope.
@@ -34,7 +35,8 @@ Open Scope N_scope.
 Inductive var :=
   | VUnknown | VArgs | VArgsGet | VArgsPost | VArgsNames | VArgsGetNames | VArgsPostNames
   | VReqHeaders | VReqHeadersNames | VReqCookies | VReqCookiesNames | VTx
-  | VReqUri | VReqMethod | VQueryString | VMatchedVar | VArgsCombinedSize.
+  | VReqUri | VReqMethod | VQueryString | VMatchedVar | VArgsCombinedSize
+  | VMatchedVarName | VMatchedVars | VMatchedVarsNames.
 
 Definition var_code (v : var) : N :=
   match v with
@@ -42,8 +44,26 @@ Definition var_code (v : var) : N :=
   | VArgsGetNames => 5 | VArgsPostNames => 6 | VReqHeaders => 7 | VReqHeadersNames => 8
   | VReqCookies => 9 | VReqCookiesNames => 10 | VTx => 11 | VReqUri => 12 | VReqMethod => 13
   | VQueryString => 14 | VMatchedVar => 15 | VArgsCombinedSize => 16
+  | VMatchedVarName => 17 | VMatchedVars => 18 | VMatchedVarsNames => 19
   end.
 Definition var_eqb (a b : var) : bool := var_code a =? var_code b.
+
+(* RuleVariable.Name() *)
+Definition var_name (v : var) : bytes :=
+  match v with
+  | VUnknown => str "UNKNOWN"%string | VArgs => str "ARGS"%string | VArgsGet => str "ARGS_GET"%string
+  | VArgsPost => str "ARGS_POST"%string | VArgsNames => str "ARGS_NAMES"%string
+  | VArgsGetNames => str "ARGS_GET_NAMES"%string | VArgsPostNames => str "ARGS_POST_NAMES"%string
+  | VReqHeaders => str "REQUEST_HEADERS"%string | VReqHeadersNames => str "REQUEST_HEADERS_NAMES"%string
+  | VReqCookies => str "REQUEST_COOKIES"%string | VReqCookiesNames => str "REQUEST_COOKIES_NAMES"%string
+  | VTx => str "TX"%string | VReqUri => str "REQUEST_URI"%string | VReqMethod => str "REQUEST_METHOD"%string
+  | VQueryString => str "QUERY_STRING"%string | VMatchedVar => str "MATCHED_VAR"%string
+  | VArgsCombinedSize => str "ARGS_COMBINED_SIZE"%string | VMatchedVarName => str "MATCHED_VAR_NAME"%string
+  | VMatchedVars => str "MATCHED_VARS"%string | VMatchedVarsNames => str "MATCHED_VARS_NAMES"%string
+  end.
+(* the variables tx.matchVariable writes *)
+Definition matched_family (v : var) : bool :=
+  match v with VMatchedVar | VMatchedVarName | VMatchedVars | VMatchedVarsNames => true | _ => false end.
 
 (* rule.go caseSensitiveVariable: the ARGS family keeps selector keys / regex sources as written *)
 Definition args_family (v : var) : bool :=
@@ -114,31 +134,40 @@ Definition flat_entries (m : gomap) : list entry := flat_map snd m.
 (* ------------------------------------------------------------------------------------ *)
 (* transaction state (the collections rules read)                                        *)
 (* ------------------------------------------------------------------------------------ *)
-Inductive mapid := MGet | MPost | MPath | MHdr | MCookie | MTx.
-Inductive sid := SUri | SMethod | SQuery | SMvar.
+Inductive mapid := MGet | MPost | MPath | MHdr | MCookie | MTx | MMvars.
+Inductive sid := SUri | SMethod | SQuery | SMvar | SMvarName.
 
 Record state := mk_state {
   s_get : gomap; s_post : gomap; s_path : gomap; s_hdr : gomap; s_cookie : gomap; s_tx : gomap;
-  s_uri : bytes; s_method : bytes; s_query : bytes; s_mvar : bytes
+  s_mvars : gomap;                       (* MATCHED_VARS (its names view is MATCHED_VARS_NAMES) *)
+  s_uri : bytes; s_method : bytes; s_query : bytes;
+  s_mvar : bytes; s_mvarname : bytes     (* MATCHED_VAR, MATCHED_VAR_NAME *)
 }.
 
 Definition get_map (st : state) (i : mapid) : gomap :=
   match i with
   | MGet => s_get st | MPost => s_post st | MPath => s_path st
-  | MHdr => s_hdr st | MCookie => s_cookie st | MTx => s_tx st
+  | MHdr => s_hdr st | MCookie => s_cookie st | MTx => s_tx st | MMvars => s_mvars st
   end.
 Definition get_single (st : state) (i : sid) : bytes :=
-  match i with SUri => s_uri st | SMethod => s_method st | SQuery => s_query st | SMvar => s_mvar st end.
+  match i with SUri => s_uri st | SMethod => s_method st | SQuery => s_query st | SMvar => s_mvar st
+  | SMvarName => s_mvarname st end.
 
 Definition set_mvar (st : state) (x : bytes) : state :=
-  mk_state (s_get st) (s_post st) (s_path st) (s_hdr st) (s_cookie st) (s_tx st)
-           (s_uri st) (s_method st) (s_query st) x.
+  mk_state (s_get st) (s_post st) (s_path st) (s_hdr st) (s_cookie st) (s_tx st) (s_mvars st)
+           (s_uri st) (s_method st) (s_query st) x (s_mvarname st).
+Definition set_mvarname (st : state) (x : bytes) : state :=
+  mk_state (s_get st) (s_post st) (s_path st) (s_hdr st) (s_cookie st) (s_tx st) (s_mvars st)
+           (s_uri st) (s_method st) (s_query st) (s_mvar st) x.
+Definition set_mvars (st : state) (m : gomap) : state :=
+  mk_state (s_get st) (s_post st) (s_path st) (s_hdr st) (s_cookie st) (s_tx st) m
+           (s_uri st) (s_method st) (s_query st) (s_mvar st) (s_mvarname st).
 Definition set_tx (st : state) (m : gomap) : state :=
-  mk_state (s_get st) (s_post st) (s_path st) (s_hdr st) (s_cookie st) m
-           (s_uri st) (s_method st) (s_query st) (s_mvar st).
+  mk_state (s_get st) (s_post st) (s_path st) (s_hdr st) (s_cookie st) m (s_mvars st)
+           (s_uri st) (s_method st) (s_query st) (s_mvar st) (s_mvarname st).
 Definition set_post (st : state) (m : gomap) : state :=
-  mk_state (s_get st) m (s_path st) (s_hdr st) (s_cookie st) (s_tx st)
-           (s_uri st) (s_method st) (s_query st) (s_mvar st).
+  mk_state (s_get st) m (s_path st) (s_hdr st) (s_cookie st) (s_tx st) (s_mvars st)
+           (s_uri st) (s_method st) (s_query st) (s_mvar st) (s_mvarname st).
 
 (* what a variable is made of (NewTransactionVariables):
    keyed = concatenation of (names-view?, underlying map); single; sized; noop *)
@@ -167,6 +196,9 @@ Definition var_shape (v : var) : shape :=
   | VQueryString => ShSingle SQuery
   | VMatchedVar => ShSingle SMvar
   | VArgsCombinedSize => ShSized [MGet; MPost]
+  | VMatchedVarName => ShSingle SMvarName
+  | VMatchedVars => ShKeyed [(false, MMvars)]
+  | VMatchedVarsNames => ShKeyed [(true, MMvars)]
   end.
 
 (* the Go objects: a keyed collection is a list of leaves (a plain Map / NamedCollection is the
@@ -314,35 +346,46 @@ Definition exec_operator (X : sem) (neg : bool) (o : op) (v : bytes) : bool := x
 Definition satisfying (X : sem) (l : link) (neg : bool) (o : op) (md : mdata) : list mdata :=
   map (fun cv => (fst md, cv)) (filter (exec_operator X neg o) (transform_values l (md_value md))).
 
-Fixpoint eval_targets (X : sem) (ord : oracle) (st : state) (l : link) (neg : bool) (o : op)
-         (i : nat) (cs : list cparams) : list mdata :=
-  match cs with
-  | [] => []
-  | c :: r => flat_map (satisfying X l neg o) (get_field X (sub ord i) st c)
-              ++ eval_targets X ord st l neg o (S i) r
-  end.
+(* transaction.go matchVariable, run for EVERY match as soon as it is found:
+   MATCHED_VARS.Add(name, value); MATCHED_VAR := value; MATCHED_VAR_NAME := name
+   where name = VARIABLE or VARIABLE:key *)
+Definition md_name (m : mdata) : bytes :=
+  let '(v, k, _) := m in if is_empty k then var_name v else var_name v ++ 58 :: k.
+Definition match_variable (st : state) (m : mdata) : state :=
+  set_mvarname (set_mvar (set_mvars st (map_add (s_mvars st) (md_name m) (md_value m))) (md_value m)) (md_name m).
 
-Definition link_matches (X : sem) (ord : oracle) (st : state) (l : link) : list mdata :=
-  match l_kind l with
-  | LAction _ => [(VUnknown, [], [])]
-  | LRule neg o => eval_targets X ord st l neg o 0 (compile_items X (l_items l) [])
+(* the loop over r.variables: tx.GetField(v) is called when variable v is reached, i.e. AFTER the
+   matches of the earlier variables of the same link have updated MATCHED_VAR / _NAME / MATCHED_VARS *)
+Definition target_matches (X : sem) (o : oracle) (st : state) (l : link) (neg : bool) (op0 : op) (c : cparams) : list mdata :=
+  flat_map (satisfying X l neg op0) (get_field X o st c).
+Definition target_post (X : sem) (o : oracle) (st : state) (l : link) (neg : bool) (op0 : op) (c : cparams) : state :=
+  fold_left match_variable (target_matches X o st l neg op0 c) st.
+
+Fixpoint eval_targets (X : sem) (ord : oracle) (st : state) (l : link) (neg : bool) (o : op)
+         (i : nat) (cs : list cparams) : list mdata * state :=
+  match cs with
+  | [] => ([], st)
+  | c :: r =>
+    let ms := target_matches X (sub ord i) st l neg o c in
+    let p := eval_targets X ord (fold_left match_variable ms st) l neg o (S i) r in
+    (ms ++ fst p, snd p)
   end.
 
 (* setvar.go with a constant, non-arithmetic value: key lower-cased, col.Set(key, [value]) *)
 Definition apply_setvar (st : state) (kv : bytes * bytes) : state :=
   set_tx st (map_set1 (s_tx st) (key_lower (fst kv)) (snd kv)).
 
-(* state after the link: every match runs tx.matchVariable (MATCHED_VAR := value);
-   an operator-less rule then runs its setvar actions *)
-Definition link_post (X : sem) (ord : oracle) (st : state) (l : link) : state :=
+Definition unknown_md : mdata := (VUnknown, [], []).
+
+(* one link: its matches and the state it leaves.  An operator-less rule matches the empty
+   MatchData (matchVariable runs for it too) and then runs its setvar actions *)
+Definition link_eval (X : sem) (ord : oracle) (st : state) (l : link) : list mdata * state :=
   match l_kind l with
-  | LAction svs => fold_left apply_setvar svs (set_mvar st [])
-  | LRule _ _ =>
-    match rev (link_matches X ord st l) with
-    | [] => st
-    | m :: _ => set_mvar st (md_value m)
-    end
+  | LAction svs => ([unknown_md], fold_left apply_setvar svs (match_variable st unknown_md))
+  | LRule neg o => eval_targets X ord st l neg o 0 (compile_items X (l_items l) [])
   end.
+Definition link_matches (X : sem) (ord : oracle) (st : state) (l : link) : list mdata := fst (link_eval X ord st l).
+Definition link_post (X : sem) (ord : oracle) (st : state) (l : link) : state := snd (link_eval X ord st l).
 
 Definition tag (lvl : nat) (ms : list mdata) : list (mdata * nat) := map (fun m => (m, lvl)) ms.
 
@@ -354,8 +397,9 @@ Fixpoint eval_chain (X : sem) (ord : oracle) (st : state) (lvl : nat) (ls : list
   match ls with
   | [] => (Some [], st)
   | l :: r =>
-    let ms := link_matches X (sub ord lvl) st l in
-    let st' := link_post X (sub ord lvl) st l in
+    let p := link_eval X (sub ord lvl) st l in
+    let ms := fst p in
+    let st' := snd p in
     if is_nil ms then (None, st')
     else match eval_chain X ord st' (S lvl) r with
          | (Some rest, st'') => (Some (tag lvl ms ++ rest), st'')
@@ -378,7 +422,8 @@ Fixpoint eval_rules (X : sem) (ord : oracle) (st : state) (ph : N) (i : nat) (ru
   | [] => ([], st)
   | r :: rest =>
     if in_phase ph r then
-      let '(res, st') := eval_rule X (sub ord i) st r in
+      (* tx.variables.matchedVars.Reset() before every evaluated rule *)
+      let '(res, st') := eval_rule X (sub ord i) (set_mvars st []) r in
       let '(out, st'') := eval_rules X ord st' ph (S i) rest in
       (match res with
        | Some mds => if r_id r =? 0 then out else (r_id r, mds) :: out
@@ -396,8 +441,8 @@ Record request := mk_request {
 Definition tx_init : list entry := map (fun n => (itoa n, [])) [0; 1; 2; 3; 4; 5; 6; 7; 8; 9; 10].
 
 Definition build1 (q : request) : state :=
-  mk_state (map_of_list (q_get q)) [] [] (map_of_list (q_hdr q)) (map_of_list (q_cookie q)) (map_of_list tx_init)
-           (q_uri q) (q_method q) (q_query q) [].
+  mk_state (map_of_list (q_get q)) [] [] (map_of_list (q_hdr q)) (map_of_list (q_cookie q)) (map_of_list tx_init) []
+           (q_uri q) (q_method q) (q_query q) [] [].
 
 Definition run_tx (X : sem) (ord : oracle) (q : request) (rules : list rule) : list fired :=
   let '(o1, st1) := eval_rules X (sub ord 1) (build1 q) 1 0 rules in
@@ -548,7 +593,29 @@ Definition spec_selects (X : sem) (st : state) (t : rtarget) : list mdata :=
   then [(rt_var t, c_keystr (compile_target X t), itoa (N.of_nat (length (spec_selected X st t))))]
   else map (fun e => (rt_var t, fst e, snd e)) (spec_selected X st t).
 
-(* match data of one link: exactly the (variable, key, transformed value) triples that satisfy *)
+(* match data of one link, EXACT: the satisfying (variable, key, transformed value) triples of
+   every target, each target selected in the state the earlier targets of the link left
+   (MATCHED_VAR / MATCHED_VAR_NAME / MATCHED_VARS move with every match) *)
+Fixpoint spec_targets (X : sem) (ord : oracle) (st : state) (l : link) (neg : bool) (o : op)
+         (i : nat) (ts : list rtarget) : list mdata :=
+  match ts with
+  | [] => []
+  | t :: r => flat_map (satisfying X l neg o) (spec_selects X st t)
+              ++ spec_targets X ord (target_post X (sub ord i) st l neg o (compile_target X t)) l neg o (S i) r
+  end.
+Definition spec_link_matches_t (X : sem) (ord : oracle) (st : state) (l : link) : list mdata :=
+  match l_kind l with
+  | LAction _ => [unknown_md]
+  | LRule neg o => spec_targets X ord st l neg o 0 (targets_of_items (l_items l))
+  end.
+Definition link_holds_t (X : sem) (ord : oracle) (st : state) (l : link) : Prop :=
+  match l_kind l with
+  | LAction _ => True
+  | LRule _ _ => exists md, In md (spec_link_matches_t X ord st l)
+  end.
+
+(* the same for a link that reads none of the MATCHED_* variables: every target selected in the
+   state before the link - no order oracle, no threading (= spec_link_matches_t, proved) *)
 Definition spec_link_matches (X : sem) (st : state) (l : link) : list mdata :=
   match l_kind l with
   | LAction _ => [(VUnknown, [], [])]
@@ -569,19 +636,22 @@ Definition link_holds (X : sem) (st : state) (l : link) : Prop :=
 Fixpoint chain_holds (X : sem) (ord : oracle) (st : state) (lvl : nat) (ls : list link) : Prop :=
   match ls with
   | [] => True
-  | l :: r => link_holds X st l /\ chain_holds X ord (link_post X (sub ord lvl) st l) (S lvl) r
+  | l :: r => link_holds_t X (sub ord lvl) st l /\ chain_holds X ord (link_post X (sub ord lvl) st l) (S lvl) r
   end.
 
 Fixpoint spec_chain_data (X : sem) (ord : oracle) (st : state) (lvl : nat) (ls : list link) : list (mdata * nat) :=
   match ls with
   | [] => []
-  | l :: r => tag lvl (spec_link_matches X st l)
+  | l :: r => tag lvl (spec_link_matches_t X (sub ord lvl) st l)
               ++ spec_chain_data X ord (link_post X (sub ord lvl) st l) (S lvl) r
   end.
 
 (* which variables a link reads *)
 Definition item_var (i : titem) : var := match i with TPos _ v _ => v | TNeg v _ => v end.
-Definition reads_mvar (l : link) : bool := existsb (fun i => var_eqb (item_var i) VMatchedVar) (l_items l).
+(* does the link read one of the variables matchVariable writes (MATCHED_VAR, MATCHED_VAR_NAME,
+   MATCHED_VARS, MATCHED_VARS_NAMES)? *)
+Definition reads_mvar (l : link) : bool :=
+  existsb (fun t => matched_family (rt_var t)) (targets_of_items (l_items l)).
 Definition is_action (l : link) : bool := match l_kind l with LAction _ => true | LRule _ _ => false end.
 
 (* well-formed maps: every entry sits in the bucket of its lower-cased key; bucket keys distinct *)
@@ -597,7 +667,7 @@ Fixpoint spec_fired (X : sem) (ord : oracle) (st : state) (ph : N) (i : nat) (ru
   match rules with
   | [] => []
   | r :: rest =>
-    let st' := if in_phase ph r then snd (eval_rule X (sub ord i) st r) else st in
-    (if in_phase ph r && rule_fires X (sub ord i) st r && negb (r_id r =? 0) then [r_id r] else [])
+    let st' := if in_phase ph r then snd (eval_rule X (sub ord i) (set_mvars st []) r) else st in
+    (if in_phase ph r && rule_fires X (sub ord i) (set_mvars st []) r && negb (r_id r =? 0) then [r_id r] else [])
     ++ spec_fired X ord st' ph (S i) rest
   end.
